@@ -573,7 +573,7 @@ impl Prop for C19 {
         "C19"
     }
     fn rule(&self) -> &'static str {
-        "plan P (dynamic-id systems only) and P' = bijective renaming of systems (unreferenced ones also to/from \"\") + injective relabelling of all 32 resource ids across types and dynamic ids + permutation / read-duplication of every declared list; oracle: canonical layouts (registration indices, nested, thread-local order) of P, P built a second time, and P' are identical; non-trivial = >= 2 stages and >= 1 group of >= 2; distinct = hash of (plan, relabelling)"
+        "plan P (dynamic-id systems only) and P' = bijective renaming of systems (unreferenced ones also to/from \"\") + injective relabelling of all 96 resource ids across types and dynamic ids + permutation / read-duplication of every declared list; oracle: canonical layouts (registration indices, nested, thread-local order) of P, P built a second time, and P' are identical; non-trivial = >= 2 stages and >= 1 group of >= 2; distinct = hash of (plan, relabelling)"
     }
     fn gen(&self, src: &mut Src) -> C19Case {
         let plan = gen_plan(src, &self.cfg);
